@@ -18,9 +18,9 @@ Definition row_of (w : world) (m k : nat) : option partrow :=
 
 Lemma row_of_ok evs m k row :
   row_of (run key okey evs) m k = Some row ->
-  row_ok key (w_blobs (run key okey evs)) row /\ objs_ok okey (w_objs (run key okey evs)).
+  row_ok key okey (w_blobs (run key okey evs)) row /\ objs_ok okey (w_objs (run key okey evs)).
 Proof.
-  intros H. pose proof (run_inv key okey evs) as I. unfold winv in I. rewrite app_nil_r in I.
+  intros H. pose proof (run_inv key okey okey_ne evs) as I. unfold winv in I. rewrite app_nil_r in I.
   split; [|exact (i_objs _ _ _ _ _ I)].
   pose proof (i_rows _ _ _ _ _ I) as R. rewrite Forall_forall in R. apply R.
   unfold row_of in H. destruct (nth_error (w_msgs _) m) as [rows|] eqn:E; [|discriminate].
@@ -77,14 +77,43 @@ Proof.
   rewrite E in S. exact S.
 Qed.
 
-Lemma read_never_foreign evs m k row s3on o :
+(** since fix 573e876 the only rows whose blob does not hold their own text
+    are EMPTY parts linked to an S3-form blob *)
+Lemma residual_class_is_empty_s3 evs m k row :
   row_of (run key okey evs) m k = Some row ->
-  classify okey (run key okey evs) row <> Some DedupEncoding ->
+  classify okey (run key okey evs) row = Some EmptyPartS3Blob ->
+  r_own row = [] /\
+  exists id b kk, r_blob row = Some id /\ get_blob (w_blobs (run key okey evs)) id = Some b /\ b_form b = FS3 kk.
+Proof.
+  intros H C. destruct (row_of_ok _ _ _ _ H) as (R & _).
+  unfold row_ok in R. unfold classify in C.
+  destruct (r_blob row) as [id|]; [|discriminate].
+  destruct R as (b & Hb & _ & [F|(E & kk & F)]); rewrite Hb in C.
+  - rewrite F in C. discriminate.
+  - split; [exact E|]. exists id, b, kk. repeat split; assumption.
+Qed.
+
+Lemma nonempty_not_classified evs m k row :
+  row_of (run key okey evs) m k = Some row -> r_own row <> [] ->
+  classify okey (run key okey evs) row = None.
+Proof.
+  intros H N. destruct (classify okey (run key okey evs) row) as [[]|] eqn:C; [|reflexivity].
+  destruct (residual_class_is_empty_s3 _ _ _ _ H C) as (E & _). contradiction.
+Qed.
+
+(** (a)+(d) for every NON-EMPTY part, unconditionally *)
+Lemma read_own_octets_nonempty evs m k row s3on o :
+  row_of (run key okey evs) m k = Some row -> r_own row <> [] ->
+  spec_read (r_own row) (read_failed s3on (run key okey evs) row o)
+            (rd (read_part s3on (run key okey evs) row o)).
+Proof. intros H N. apply (read_own_octets _ _ _ _ _ _ H). eapply nonempty_not_classified; eassumption. Qed.
+
+Lemma read_never_foreign evs m k row s3on o :
+  row_of (run key okey evs) m k = Some row -> r_own row <> [] ->
   rd (read_part s3on (run key okey evs) row o) = Some (r_own row) \/
   rd (read_part s3on (run key okey evs) row o) = None.
 Proof.
-  intros H N. destruct (classify okey (run key okey evs) row) as [[]|] eqn:C; [congruence|].
-  pose proof (read_own_octets _ _ _ _ s3on o H C) as S.
+  intros H N. pose proof (read_own_octets_nonempty _ _ _ _ s3on o H N) as S.
   destruct (rd (read_part s3on (run key okey evs) row o)) as [s|]; [left|right; reflexivity].
   simpl in S. congruence.
 Qed.
@@ -94,12 +123,12 @@ Lemma refcount_exact evs id b :
   get_blob (w_blobs (run key okey evs)) id = Some b ->
   b_refs b = refcount id (all_rows (run key okey evs)).
 Proof.
-  intros H. pose proof (run_inv key okey evs) as I. unfold winv in I. rewrite app_nil_r in I.
+  intros H. pose proof (run_inv key okey okey_ne evs) as I. unfold winv in I. rewrite app_nil_r in I.
   exact (i_refs _ _ _ _ _ I _ _ H).
 Qed.
 
 Lemma keys_stored_once evs : NoDup (map b_key (w_blobs (run key okey evs))).
-Proof. exact (i_nodup _ _ _ _ _ (run_inv key okey evs)). Qed.
+Proof. exact (i_nodup _ _ _ _ _ (run_inv key okey okey_ne evs)). Qed.
 
 Lemma nodup_nth {A} (l : list A) i j x :
   NoDup l -> nth_error l i = Some x -> nth_error l j = Some x -> i = j.
@@ -116,7 +145,7 @@ Proof.
   intros H1 H2 B1 B2 K.
   destruct (row_of_ok _ _ _ _ H1) as (R1 & _). destruct (row_of_ok _ _ _ _ H2) as (R2 & _).
   unfold row_ok in *. rewrite B1 in R1. rewrite B2 in R2.
-  destruct R1 as (b1 & G1 & K1). destruct R2 as (b2 & G2 & K2).
+  destruct R1 as (b1 & G1 & K1 & _). destruct R2 as (b2 & G2 & K2 & _).
   pose proof (keys_stored_once evs) as N.
   destruct i1 as [|n1]; [discriminate|]. destruct i2 as [|n2]; [discriminate|]. simpl in G1, G2.
   f_equal. eapply (nodup_nth _ n1 n2 (b_key b1) N).
@@ -129,11 +158,11 @@ Lemma store_never_drops evs s3on o d ps :
   exists rows,
     w_msgs (run key okey (evs ++ [EStore s3on o d ps])) = w_msgs (run key okey evs) ++ [rows] /\
     map r_own rows = map p_content ps /\
-    Forall (row_ok key (w_blobs (run key okey (evs ++ [EStore s3on o d ps])))) rows.
+    Forall (row_ok key okey (w_blobs (run key okey (evs ++ [EStore s3on o d ps])))) rows.
 Proof.
   unfold run. rewrite fold_left_app. simpl. fold (run key okey evs).
-  pose proof (run_inv key okey evs) as I.
-  destruct (store_msg_inv key okey s3on _ ps o d I) as (rows & I' & M & Own & _).
+  pose proof (run_inv key okey okey_ne evs) as I.
+  destruct (store_msg_inv key okey okey_ne s3on _ ps o d I) as (rows & I' & M & Own & _).
   exists rows. split; [exact M|split; [exact Own|]].
   unfold winv in I'. rewrite app_nil_r in I'. pose proof (i_rows _ _ _ _ _ I') as R.
   unfold all_rows in R. rewrite M, concat_app in R. apply Forall_app in R. destruct R as [_ R].
@@ -149,32 +178,44 @@ Lemma store_fault_falls_back w s3on p o d row w' o' d' :
   rd (read_part s3on w' row []) = Some (p_content p).
 Proof.
   intros O Fr E. unfold store_part in E.
-  assert (New : forall f d0 r bl', store_blob key f (w_blobs w) (p_enc p) (p_content p) d0 = (r, bl') ->
-                (r = None /\ bl' = w_blobs w) \/
-                (r = Some (S (length (w_blobs w))) /\ bl' = w_blobs w ++ [mkBlob (key (p_enc p) (p_content p)) f 1])).
-  { intros f d0 r bl' H. unfold store_blob in H. destruct d0.
-    - rewrite Fr in H. inversion H; subst. right; split; reflexivity.
-    - inversion H; subst. left; split; reflexivity. }
+  (* with a fresh hash the row is new and holds the part's octets, or the database failed *)
+  assert (New : forall f stored d0 r bl' row0 bl'',
+            call_ok okey f stored (p_content p) ->
+            store_blob key f (w_blobs w) (p_enc p) (p_content p) d0 = (r, bl') ->
+            link_or_inline p r bl' stored = (row0, bl'') ->
+            (row0 = inline_row p) \/
+            (row0 = blob_row p (S (length (w_blobs w))) /\
+             bl'' = w_blobs w ++ [mkBlob (key (p_enc p) (p_content p)) f 1])).
+  { intros f stored d0 r bl' row0 bl'' C H L. unfold store_blob in H. destruct d0.
+    - rewrite Fr in H. inversion H; subst. unfold link_or_inline in L.
+      rewrite (new_row_holds okey okey_ne _ _ _ _ _ C) in L. inversion L; subst. right; split; reflexivity.
+    - inversion H; subst. inversion L; subst. left; reflexivity. }
   destruct (out_of_line p); [|inversion E; subst; reflexivity].
   destruct s3on.
   - destruct (s3_store okey (w_objs w) (p_content p) o) as [[[r objs'] o1] lg] eqn:Es.
     destruct (take d) as [d0 d1]. destruct r as [k|].
     + destruct (s3_store_some okey _ _ _ _ _ _ _ okey_inj O Es) as (-> & L).
       destruct (store_blob key (FS3 (okey (p_content p))) (w_blobs w) (p_enc p) (p_content p) d0) as [r bl'] eqn:Eb.
-      destruct (New _ _ _ _ Eb) as [[-> ->]|[-> ->]]; inversion E; subst; [reflexivity|].
+      destruct (link_or_inline p r bl' (Some (okey (p_content p)))) as [row0 bl''] eqn:El.
+      inversion E; subst.
+      destruct (New _ _ _ _ _ _ _ (or_intror (conj eq_refl eq_refl)) Eb El) as [->|[-> ->]]; [reflexivity|].
       unfold read_part, rd. cbn [r_blob blob_row w_blobs w_objs]. rewrite get_blob_app_new. cbn [b_form].
       destruct (okey (p_content p)) as [|c0 k0] eqn:EK; [exfalso; eapply okey_ne; eassumption|].
       simpl. rewrite L. reflexivity.
     + destruct (store_blob key (FLocal (p_content p)) (w_blobs w) (p_enc p) (p_content p) d0) as [r bl'] eqn:Eb.
-      destruct (New _ _ _ _ Eb) as [[-> ->]|[-> ->]]; inversion E; subst; [reflexivity|].
+      destruct (link_or_inline p r bl' None) as [row0 bl''] eqn:El.
+      inversion E; subst.
+      destruct (New _ _ _ _ _ _ _ (or_introl (conj eq_refl eq_refl)) Eb El) as [->|[-> ->]]; [reflexivity|].
       unfold read_part, rd. cbn [r_blob blob_row w_blobs]. rewrite get_blob_app_new. reflexivity.
   - destruct (take d) as [d0 d1].
     destruct (store_blob key (FLocal (p_content p)) (w_blobs w) (p_enc p) (p_content p) d0) as [r bl'] eqn:Eb.
-    destruct (New _ _ _ _ Eb) as [[-> ->]|[-> ->]]; inversion E; subst; [reflexivity|].
+    destruct (link_or_inline p r bl' None) as [row0 bl''] eqn:El.
+    inversion E; subst.
+    destruct (New _ _ _ _ _ _ _ (or_introl (conj eq_refl eq_refl)) Eb El) as [->|[-> ->]]; [reflexivity|].
     unfold read_part, rd. cbn [r_blob blob_row w_blobs]. rewrite get_blob_app_new. reflexivity.
 Qed.
 
 Lemma run_objs_ok evs : objs_ok okey (w_objs (run key okey evs)).
-Proof. exact (i_objs _ _ _ _ _ (run_inv key okey evs)). Qed.
+Proof. exact (i_objs _ _ _ _ _ (run_inv key okey okey_ne evs)). Qed.
 
 End Main.
